@@ -110,8 +110,8 @@ pub fn judge_dictation(ls: &LangSet, code: &str, d: &str) -> (bool, Option<Strin
 }
 
 pub fn run(ctx: &Ctx) -> Outcome {
-    let max_len_exhaustive: usize = if ctx.quick() { 4 } else { 6 };
-    let n_random = ctx.n(100_000, 1_500_000);
+    let max_len_exhaustive: usize = if ctx.quick() { 5 } else { 6 };
+    let n_random = ctx.n(300_000, 3_000_000);
     let rep = run_sharded(ctx, |w, nw, rep| {
         let ls = LangSet::new();
         let mut rng = Rng::derive(ctx.seed, "C08", w as u64);
